@@ -806,6 +806,33 @@ impl Check {
         self.reports.push(SubReport { name: name.into(), stats: st, violation, wall_s: 0.0, extra });
     }
 
+    /// the case of the replay file if it names the sub `name` (subs reported through `external`
+    /// replay their own cases and hand the verdict to `replay_verdict`)
+    pub fn replay_case(&self, name: &str) -> Option<Value> {
+        match &self.replay {
+            Some((sub, case)) if sub == name => Some(case.clone()),
+            _ => None,
+        }
+    }
+
+    pub fn replay_verdict(&mut self, name: &str, case: &Value, result: Result<(), String>) {
+        self.replay_hit = true;
+        let mut st = Stats::default();
+        st.evaluations = 1;
+        match result {
+            Ok(()) => {
+                println!("REPLAY property={} sub={} verdict=pass", self.property, name);
+                self.reports.push(SubReport { name: name.into(), stats: st, violation: None, wall_s: 0.0, extra: None });
+            }
+            Err(sig) => {
+                println!("REPLAY property={} sub={} verdict=violation {}", self.property, name, sig);
+                let path = self.write_replay(name, case, &sig);
+                println!("VIOLATION property={} replay={}", self.property, path.display());
+                self.reports.push(SubReport { name: name.into(), stats: st, violation: Some((sig, path)), wall_s: 0.0, extra: None });
+            }
+        }
+    }
+
     pub fn print_known(&self, id: &str) {
         if !self.printed_known.borrow_mut().insert(id.to_string()) {
             return;
